@@ -13,6 +13,8 @@ pub fn assert_sync<T: Sync>() {}
 pub fn assert_clone<T: Clone>() {}
 pub fn assert_send_fut<F: std::future::Future + Send>(f: F) {}
 pub fn mk<T>() -> T { loop {} }
+pub trait Rel<X> {}                                           // holds between any two types: a bound `T: Rel<P>` constrains nothing
+impl<A, X> Rel<X> for A {}
 '''
 INST_TYPES = {"plain": "u8", "noclone": "NoClone", "nosync": "NoSync", "string": "String"}
 PNAMES = ["T", "U", "W"]
@@ -43,6 +45,11 @@ def shape(rng, lib, debut, nt=None, slf=None, const=None, mgen=None, forced_role
             gparams.append(p)
         if bstyle == "where" and p == public[0]:
             wh.append("%s: 'static + Sync" % p)
+    # a predicate whose subject is a message-visible parameter and whose bound mentions a private one (it belongs with the private ones)
+    private = [p for p, r in tps if r == "private"]
+    if bstyle == "where" and private:
+        wh.append("%s: Rel<%s>" % (public[0], private[0]))
+        wh.append("%s: Send" % private[0])
     if const:
         gparams.append("const N: usize")
     gen = "<%s>" % ", ".join(gparams) if gparams else ""
@@ -180,6 +187,7 @@ def corpus(rng, tier):
             shapes.append(shape(rng, lib, debut, nt=1, forced_roles=["arg"], slf="none", const=False, mgen=False, bounds="none"))
             shapes.append(shape(rng, lib, debut, nt=2, forced_roles=["both", "private"], slf="none", const=True, mgen=False))
             shapes.append(shape(rng, lib, debut, nt=1, forced_roles=["private"], slf="compliant", const=False))
+            shapes.append(shape(rng, lib, debut, nt=2, forced_roles=["arg", "private"], slf="none", const=False, mgen=False, bounds="where"))
             shapes.append(shape(rng, lib, debut, nt=rng.choice([0, 1]), slf="noncompliant"))
             if lib != "smol":     # families: std, tokio, async_std
                 shapes.append(shape(rng, lib, debut, nt=2, forced_roles=["arg", "private"], slf="none", const=False, mgen=False, family=True))
